@@ -222,11 +222,14 @@ impl ResKind {
                 ("load-component", assign(format!("acc = {name}.x"))),
                 ("load-whole", letf("w", name.to_string())),
                 ("load-in-call", assign(format!("acc = length({name})"))),
+                ("load-through-pointer", Stmt { full: format!("let p{uid} = &{name}; acc = (*p{uid}).y;"), simple_init: None, simple_update: None }),
+                ("load-in-condition", Stmt { full: format!("if {name}.z > 0.5 {{ acc = 1.0; }}"), simple_init: None, simple_update: None }),
             ],
             ResKind::StorageRw => vec![
                 ("store", assign(format!("{name}.x = 1.0"))),
                 ("load-component", assign(format!("acc = {name}.y"))),
                 ("compound-assign", assign(format!("{name}.z += 1.0"))),
+                ("store-through-pointer", Stmt { full: format!("let p{uid} = &{name}; (*p{uid}).w = 2.0;"), simple_init: None, simple_update: None }),
             ],
             ResKind::StorageAtomic => vec![
                 ("atomic-add", letf("a", format!("atomicAdd(&{name}.counter, 1u)"))),
@@ -239,8 +242,13 @@ impl ResKind {
             ResKind::Texture => vec![
                 ("texture-load", assign(format!("acc = textureLoad({name}, vec2<i32>(0, 0), 0).x"))),
                 ("texture-dimensions", letf("d", format!("textureDimensions({name})"))),
+                ("texture-num-levels", letf("l", format!("textureNumLevels({name})"))),
             ],
-            ResKind::TextureSampled => vec![("texture-sample-level", assign(format!("acc = textureSampleLevel({name}, {name}_s, vec2<f32>(0.5, 0.5), 0.0).x")))],
+            ResKind::TextureSampled => vec![
+                ("texture-sample-level", assign(format!("acc = textureSampleLevel({name}, {name}_s, vec2<f32>(0.5, 0.5), 0.0).x"))),
+                ("texture-gather", assign(format!("acc = textureGather(1, {name}, {name}_s, vec2<f32>(0.5, 0.5)).x"))),
+                ("texture-sample-grad", assign(format!("acc = textureSampleGrad({name}, {name}_s, vec2<f32>(0.5, 0.5), vec2<f32>(0.0), vec2<f32>(0.0)).x"))),
+            ],
             ResKind::StorageTexture => vec![(
                 "texture-store",
                 Stmt {
